@@ -454,3 +454,17 @@ fn c15_probe_ser() {
     spin(v.len() as u64 & 7);
     core::mem::forget(v);
 }
+
+#[kani::proof]
+#[kani::unwind(50)]
+fn c15_probe_writer() {
+    let mut w = fresh_writer();
+    spin(w.root.free_offset as u64 % 5 + 1); // 12288%5+1 = 4
+    let a = do_append(&mut w, 7);
+    spin(a % 5 + 1); // 4
+    spin(w.root.free_offset as u64 % 5 + 1); // 12293%5+1 = 4
+    spin(vf::fs().n as u64 % 5 + 1); // 4 -> 5
+    spin(vf::fs().trace[2].len as u64 % 5 + 1); // 4 -> 5
+    spin(vf::fs().trace[3].off as u64 % 5 + 1); // 12292 -> 3
+    core::mem::forget(w);
+}
